@@ -1,10 +1,12 @@
 package c15
 
 // The prepared world: a prefix of REAL flows (authorization code flow, token
-// redemption, revocation) on the Provider router that leaves, for client web
-// (opaque access tokens) and client webjwt (JWT access tokens), live / expired /
-// revoked access tokens, refresh tokens and ID tokens in one cloneable
-// refstore.State, plus hand-made hostile strings. Cases clone the state.
+// redemption, revocation, end_session) on the Provider router that leaves, for
+// client web (opaque access tokens), client webjwt (JWT access tokens) and client
+// web2 (ended session), live / expired / revoked / terminated access tokens, refresh
+// tokens and ID tokens in one cloneable refstore.State - issued under two virtual
+// hosts (issuers) of one provider - plus hand-made hostile strings and client
+// assertions. Cases clone the state.
 
 import (
 	"encoding/base64"
@@ -36,7 +38,7 @@ const (
 	ttUnknown = urn + "saml2" // a registered RFC 8693 type the library does not list
 	teGrant   = "urn:ietf:params:oauth:grant-type:token-exchange"
 
-	stageGap = 6 * time.Hour    // old families are issued this long before the live ones
+	stageGap = 6 * time.Hour // old families are issued this long before the live ones
 	caseAt   = stageGap + 30*time.Second
 )
 
